@@ -1,7 +1,8 @@
 //! Skip list: get_skip_height, build_skip / get_ancestor of HeaderIndexView,
 //! ActiveChain::get_locator.
 use crate::*;
-use ckb_shared::types::verif_get_skip_height;
+use ckb_shared::types::{verif_get_skip_height, HeaderIndexView};
+use ckb_types::{core::EpochNumberWithFraction, packed::Byte32, BlockNumberAndHash, U256};
 
 fn skip_spec(h: u64) -> u64 {
     // written from the comment in the code: "turn the lowest 1 bit into 0"
@@ -37,6 +38,171 @@ fn one_height(cx: &mut Ctx, h: u64, to_coq: bool) {
 }
 
 pub fn run(cx: &mut Ctx) {
+    run_heights(cx);
+    run_ancestors(cx);
+}
+
+#[derive(Clone)]
+struct Tree {
+    /// index i = hash id i+1; (number, parent index or usize::MAX for the root)
+    nodes: Vec<(u64, usize)>,
+    /// stored main branch: number -> node index, numbers 0..=tip
+    main: Vec<usize>,
+    tip: u64,
+    views: Vec<HeaderIndexView>,
+}
+fn hid(i: usize) -> Byte32 {
+    crate::orphan::hash_of(i as u64 + 1)
+}
+fn idx_of(h: &Byte32) -> usize {
+    crate::orphan::id_of(h) as usize - 1
+}
+fn strip(v: &HeaderIndexView) -> HeaderIndexView {
+    HeaderIndexView::new(v.hash(), v.number(), v.epoch(), v.timestamp(), v.parent_hash(), v.total_difficulty().clone())
+}
+impl Tree {
+    fn in_store(&self, i: usize) -> bool {
+        let n = self.nodes[i].0;
+        n <= self.tip && self.main.get(n as usize) == Some(&i)
+    }
+    fn getv(&self, h: &Byte32, store_first: bool) -> Option<HeaderIndexView> {
+        let i = idx_of(h);
+        let v = self.views.get(i)?;
+        Some(if store_first && self.in_store(i) { strip(v) } else { v.clone() })
+    }
+    fn fast(&self, number: u64, cur: BlockNumberAndHash) -> Option<HeaderIndexView> {
+        let i = idx_of(&cur.hash());
+        if i < self.views.len() && self.in_store(i) {
+            self.main.get(number as usize).and_then(|j| self.views.get(*j)).map(strip)
+        } else {
+            None
+        }
+    }
+    fn walk(&self, base: usize, n: u64) -> Option<usize> {
+        if n > self.nodes[base].0 {
+            return None;
+        }
+        let mut c = base;
+        while self.nodes[c].0 > n {
+            c = self.nodes[c].1;
+        }
+        Some(c)
+    }
+    /// run the real build_skip for every header in creation order
+    fn build(nodes: Vec<(u64, usize)>, main: Vec<usize>, tip: u64) -> Tree {
+        let mut t = Tree { nodes, main, tip, views: Vec::new() };
+        for i in 0..t.nodes.len() {
+            let (number, parent) = t.nodes[i];
+            let ph = if parent == usize::MAX { Byte32::zero() } else { hid(parent) };
+            let mut v = HeaderIndexView::new(hid(i), number, EpochNumberWithFraction::new(number / 1000, number % 1000, 1000), number, ph, U256::from(number));
+            v.build_skip(t.tip, |h, sf| t.getv(h, sf), |n, c| t.fast(n, c));
+            t.views.push(v);
+        }
+        t
+    }
+    fn coq(&self) -> String {
+        let hdrs: Vec<String> = self.views.iter().enumerate().map(|(i, v)| {
+            format!("({}, mkHdr {} {} {} {})", coq_n(i as u128 + 1), coq_n(i as u128 + 1), coq_n(v.number() as u128),
+                    coq_n(if self.nodes[i].1 == usize::MAX { 0 } else { self.nodes[i].1 as u128 + 1 }),
+                    coq_option(&v.skip_hash().map(|h| idx_of(h) as u128 + 1), |x| coq_n(*x)))
+        }).collect();
+        let main: Vec<String> = self.main.iter().enumerate().map(|(n, i)| format!("({}, {})", coq_n(n as u128), coq_n(*i as u128 + 1))).collect();
+        format!("mkChain [{}] [{}] {}", hdrs.join("; "), main.join("; "), coq_n(self.tip as u128))
+    }
+    fn json(&self) -> Value {
+        json!({"nodes": self.nodes.iter().map(|(n, p)| json!([n, if *p == usize::MAX { -1i64 } else { *p as i64 }])).collect::<Vec<_>>(),
+               "main": self.main, "tip": self.tip})
+    }
+}
+
+fn random_tree(rng: &mut Rng, n: usize, fork_pct: u64, stored_pct: u64) -> (Vec<(u64, usize)>, Vec<usize>, u64) {
+    let mut nodes: Vec<(u64, usize)> = vec![(0, usize::MAX)];
+    for i in 1..n {
+        let p = if rng.below(100) < fork_pct { rng.below(i as u64) as usize } else { i - 1 };
+        nodes.push((nodes[p].0 + 1, p));
+    }
+    // main branch = path from a random node to the root, stored up to `tip`
+    let leaf = if stored_pct == 0 { 0 } else { rng.below(n as u64) as usize };
+    let mut path = vec![leaf];
+    while nodes[*path.last().unwrap()].1 != usize::MAX {
+        path.push(nodes[*path.last().unwrap()].1);
+    }
+    path.reverse();
+    let tip = (path.len() as u64 - 1) * stored_pct / 100;
+    path.truncate(tip as usize + 1);
+    (nodes, path, tip)
+}
+
+fn check_tree(cx: &mut Ctx, t: &Tree, queries: &[(usize, u64)], to_coq: bool, stream: &str) {
+    let ctx = json!({"structure": "ancestor", "stream": stream, "tree": t.json()});
+    // skip pointers
+    for (i, v) in t.views.iter().enumerate() {
+        let n = v.number();
+        let want = if n == 0 { None } else { t.walk(i, skip_spec(n)) };
+        let got = v.skip_hash().map(idx_of);
+        if got != want {
+            cx.violation("build_skip does not point to the ancestor at the skip height".into(), json!({"case": ctx, "header": i, "got": got, "expected": want}));
+            break;
+        }
+    }
+    let mut coq_q = Vec::new();
+    for (base, n) in queries {
+        let got = t.views[*base].get_ancestor(t.tip, *n, |h, sf| t.getv(h, sf), |m, c| t.fast(m, c)).map(|v| idx_of(&v.hash()));
+        let want = t.walk(*base, *n);
+        cx.count("ancestor_queries");
+        if got != want {
+            cx.violation("get_ancestor differs from walking parent links".into(), json!({"case": ctx, "base": base, "number": n, "got": got, "expected": want}));
+        }
+        coq_q.push(format!("({}, {}, {})", coq_n(*base as u128 + 1), coq_n(*n as u128), coq_option(&got.map(|x| x as u128 + 1), |x| coq_n(*x))));
+    }
+    cx.evaluations += 1;
+    cx.distinct += 1;
+    if to_coq {
+        let mut d = ctx.clone();
+        d["queries"] = json!(queries.len());
+        cx.case(G_ANC, format!("mkAnc ({}) [{}]", t.coq(), coq_q.join("; ")), d);
+        cx.count("ancestor_coq_cases");
+    }
+}
+
+fn run_ancestors(cx: &mut Ctx) {
+    // small trees: every (base, number) pair, number up to number(base)+1
+    let n_small = if cx.thorough { 600 } else { 120 };
+    for k in 0..n_small {
+        let n = cx.rng.range(2, 40) as usize;
+        let fork = *cx.rng.pick(&[0u64, 10, 40]);
+        let stored = *cx.rng.pick(&[0u64, 0, 50, 100]);
+        let mut r = cx.rng.fork();
+        let (nodes, main, tip) = random_tree(&mut r, n, fork, stored);
+        let t = Tree::build(nodes, main, tip);
+        let mut q = Vec::new();
+        for b in 0..n {
+            for m in 0..=t.nodes[b].0 + 1 {
+                q.push((b, m));
+            }
+        }
+        check_tree(cx, &t, &q, k % 2 == 0, "small-all-pairs");
+        cx.count("ancestor_trees_small");
+    }
+    // medium chains (model-compared) and long chains up to 2^16+ heights (predicate only)
+    let sizes: Vec<(usize, bool)> = if cx.thorough { vec![(300, true), (400, true), (5000, false), (70000, false), (70000, false)] } else { vec![(300, true), (3000, false), (70000, false)] };
+    for (n, to_coq) in sizes {
+        let fork = if n > 10000 { 1 } else { 5 };
+        let mut r = cx.rng.fork();
+        let (nodes, main, tip) = random_tree(&mut r, n, fork, *cx.rng.pick(&[0u64, 30]));
+        let t = Tree::build(nodes, main, tip);
+        let mut q = Vec::new();
+        for _ in 0..(if to_coq { 150 } else { 3000 }) {
+            let b = cx.rng.below(n as u64) as usize;
+            let m = cx.rng.below(t.nodes[b].0 + 2);
+            q.push((b, m));
+        }
+        check_tree(cx, &t, &q, to_coq, "long-random-pairs");
+        cx.count("ancestor_trees_long");
+    }
+}
+
+fn run_heights(cx: &mut Ctx) {
     let prev = std::panic::take_hook();
     std::panic::set_hook(Box::new(|_| {}));
     // dense sweep of small heights, all powers of two +-2, random 63-bit and 64-bit values
@@ -64,7 +230,32 @@ pub fn run(cx: &mut Ctx) {
     std::panic::set_hook(prev);
 }
 
+pub fn replay_ancestor(case: &Value, viol: &mut Vec<Violation>) {
+    let tr = &case["tree"];
+    let nodes: Vec<(u64, usize)> = tr["nodes"].as_array().unwrap().iter().map(|x| (x[0].as_u64().unwrap(), if x[1].as_i64().unwrap() < 0 { usize::MAX } else { x[1].as_u64().unwrap() as usize })).collect();
+    let main: Vec<usize> = tr["main"].as_array().unwrap().iter().map(|x| x.as_u64().unwrap() as usize).collect();
+    let t = Tree::build(nodes, main, tr["tip"].as_u64().unwrap());
+    let mut bad = 0;
+    for b in 0..t.nodes.len() {
+        for m in 0..=t.nodes[b].0 {
+            let got = t.views[b].get_ancestor(t.tip, m, |h, sf| t.getv(h, sf), |x, c| t.fast(x, c)).map(|v| idx_of(&v.hash()));
+            if got != t.walk(b, m) {
+                bad += 1;
+                if bad <= 3 {
+                    println!("get_ancestor(header {b}, {m}) = {:?}, parent walk gives {:?}", got, t.walk(b, m));
+                }
+            }
+        }
+    }
+    if bad > 0 {
+        viol.push(Violation { what: format!("{bad} ancestor queries differ from the parent walk"), detail: case.clone(), signature: None });
+    }
+}
+
 pub fn replay(case: &Value, viol: &mut Vec<Violation>) {
+    if case["structure"] == "ancestor" {
+        return replay_ancestor(case, viol);
+    }
     if case["structure"] == "skip_height" {
         let h = case["height"].as_u64().unwrap();
         let r = std::panic::catch_unwind(|| verif_get_skip_height(h)).ok();
